@@ -103,7 +103,9 @@ def generate(rng, tier, index, backends):
             load_faults[str(rng.randrange(len(sels)))] = rng.choice([0, 0, 1, 1, 2, 3])
     return {"world": wp, "rpc": r, "image": k, "selections": sels, "enumerate": enum,
             "scribble_results": rng.random() < 0.5, "load_faults": load_faults,
-            "create_cache": rng.random() < 0.3}
+            "create_cache": rng.random() < 0.3,
+            # the image file's metadata changes (same bytes, newer mtime) before this selection
+            "touch_before": rng.randrange(len(sels)) if rng.random() < 0.25 else None}
 
 
 def _same(res, ref, level, full=False):
@@ -193,8 +195,11 @@ def execute(plan, props):
             return common.outcome(SIM, violations, keys, stats)
         tb = bits_of(twin.values, prod.level)
         if tb is None or tb.shape != truth.shape or not np.array_equal(tb, truth):
-            bump("twin-unverified")   # a C01 defect; the reference for C02 would be wrong
-            return common.outcome(SIM, violations, keys, stats)
+            # the full load does not equal the file (C01's business); C02 is relational - the
+            # reference is "the same operation on the fully loaded image", whatever that holds
+            bump("twin-differs-from-file")
+            if tb is None or tb.shape != truth.shape:
+                return common.outcome(SIM, violations, keys, stats)
         control = make_control(twin)
 
         # ---------------------------------------------------------------- C11 open-time clause
@@ -259,6 +264,9 @@ def execute(plan, props):
                 bump("control-disagrees-with-eager:" + cls)
                 continue
             bump("selections")
+            if plan.get("touch_before") == k_sel and w.backend in world.LOCAL:
+                w.touch_images()
+                bump("touched-before-load")
             nth_fault = (plan.get("load_faults") or {}).get(str(k_sel))
             faulted = nth_fault is not None and w.backend in world.RECORDED
             if faulted:
